@@ -54,6 +54,28 @@ def obligations(tier):
               "numtodo counts T records, read errors/garbage abandon the pass without flaghiteof, open trouble re-queues",
         expect_witnesses=["exitasap_nothing_started", "not_due_yet", "open_trouble_requeued", "pass_started", "no_slot_waits",
                           "read_error_abandons_pass", "end_of_file", "T_record_started", "D_record_skipped", "unknown_record_abandons_pass"]))
+    steps.append(Obl("todo_do", "todo.c",
+        progs=[Prog("qmail-send.c", nomain=True, cut=["rewrite"]), Prog("fmt_ulong.c", cut=["fmt_ulong"], link=True)],
+        repo=[u for u in UNITS if u != "fmt_ulong.c"] + ["open_read.c", "open_excl.c", "substdio.c", "scan_ulong.c"],
+        lib=["arena_stralloc.c", "ideal_substdio.c", "ideal_getln.c"],
+        defines={"ARENA_CAP": 64, "ARENA_SLOTS": 8},
+        sysrename=["open", "close", "read", "write", "stat", "unlink", "fsync", "readdir", "closedir", "opendir", "time"],
+        grid=[{"E": e} for e in ((5, 6) if tier == "quick" else (5, 6, 7, 8))],
+        unwind_default=lambda p: max(p["E"] + 6, 20),
+        unwind=lambda p: {"todo_do~for (;;)": p["E"] + 2, "getln": p["E"] + 2, "ref_parse": p["E"] + 2, "rewrite": p["E"] + 2,
+                          "byte_copy": p["E"] + 3, "substdio_put": max(p["E"] + 3, 10), "ideal_flush": p["E"] + 5, "scan_ulong": p["E"] + 2},
+        timeout=900 if tier == "quick" else 3400,
+        functions=["qmail-send.c:todo_do", "qmail-send.c:fnmake_*", "fmtqfn.c:fmtqfn", "scan_ulong.c", "open_excl.c", "open_read.c"],
+        cuts=["rewrite -> observing stub (rwline = T ++ address ++ NUL, channel from the tape); routing rules are C10",
+              "prioq_insert -> observed", "trigger_*, log* -> no-ops"],
+        stubs=["ideal buffered streams with a pending buffer per file; one symbolic call among flush/fsync/open/unlink/stat/read fails (single-failure quantifier)",
+               "leftover info/local/remote of a crashed earlier attempt may exist"],
+        assumes=["todo/N holds E symbolic bytes with at most one F record (format written by qmail-queue, C01); message number concrete; directory stream already open and returning this entry"],
+        outside=["envelopes longer than E bytes"],
+        claim="C02: info/local/remote are removed, re-created, fully written, fsynced and closed before the todo/N request; nothing scheduled before the cleaner's '+'; "
+              "C03(5)/C10: each T record yields exactly one T record in exactly one channel file, in order; info = F record; any failure leaves todo/N and schedules nothing",
+        expect_witnesses=lambda p: ["failure_leaves_todo", "unknown_record_leaves_todo", "committed_and_scheduled", "cleaner_refused", "no_recipients_done"]
+                         + (["both_channels_scheduled"] if p["E"] >= 6 else [])))
     return steps + [
         Obl("del_dochan", "del_dochan.c",
             progs=[Prog("qmail-send.c", nomain=True, cut=["markdone", "addbounce", "job_close", "del_status"])],
